@@ -3,6 +3,38 @@
 // Contracts for package cmd, checked by /verif (govc). Comment-only file.
 package cmd
 
-//@ func buildRunner
+//@ func buildRunner effect
 //@   property C12 C10 C16
 //@   trusted "composition root: drives the generated DI container (internal/gontainer, reflection-based runtime); its wiring is evaluated by the composition test, not proved"
+//@   ensures [steps_wired] result != nil && (forall j int :: 0 <= j && j < len(result.steps) ==> result.steps[j] != nil)
+
+// C09: -i may be given several times and every occurrence is one pattern, taken literally (a string *array* flag, not a
+// comma-separated slice flag); -o is a plain string flag.
+//@ func NewBuildCmd
+//@   property C09 C10 C12
+//@   ensures [input_flag_is_one_pattern_per_occurrence] exists k int :: old(tlen()) <= k && k < tlen()
+//@        && evIs(k, "github.com/spf13/pflag.(*FlagSet).StringArrayVarP") && evS1(k) == "input" && evS2(k) == "i"
+//@   ensures [output_flag_is_a_string] exists k int :: old(tlen()) <= k && k < tlen()
+//@        && evIs(k, "github.com/spf13/pflag.(*FlagSet).StringVarP") && evS1(k) == "output" && evS2(k) == "o"
+//@   ensures [no_csv_flags] forall k int :: old(tlen()) <= k && k < tlen() ==> !evIs(k, "github.com/spf13/pflag.(*FlagSet).StringSliceVarP")
+
+// C16 / C10 / C09 / C18: the build command hands exactly its flags to the composition root - each ignore flag switches
+// off its own rule and nothing else, the patterns arrive in flag order, version and build info are not mixed up - and
+// everything it prints itself goes to the writer it gave to the runner, which is io.Discard under --quiet.
+//@ func NewBuildCmd$1
+//@   property C16 C10 C09 C18 C12
+//@   ensures [flags_reach_the_runner] let k = old(tlen()) :: k < tlen() && evIs(k, "internal/cmd:buildRunner")
+//@        && evArg(k, runnerPayload).paramsExistActive == !ignoreMissingParams && evArg(k, runnerPayload).servicesExistActive == !ignoreMissingServices
+//@        && evArg(k, runnerPayload).inputPatterns == inputPatterns && evArg(k, runnerPayload).outputFile == outputFile
+//@        && evArg(k, runnerPayload).stub == stub && evArg(k, runnerPayload).version == version && evArg(k, runnerPayload).buildInfo == buildInfo
+//@        && (quiet ==> evArg(k, runnerPayload).writer == io.Discard) && (!quiet ==> evArg(k, runnerPayload).writer == cmd.OutOrStdout())
+//@   ensures [builds_once] forall k int :: old(tlen()) < k && k < tlen() ==> !evIs(k, "internal/cmd:buildRunner")
+//@   ensures [prints_only_to_the_runners_writer] forall k int :: old(tlen()) < k && k < tlen()
+//@        && (evIs(k, "github.com/fatih/color.(*Color).Fprint") || evIs(k, "github.com/fatih/color.(*Color).Fprintln")) ==>
+//@        evArg(k, io.Writer) == evArg(old(tlen()), runnerPayload).writer
+//@   loop 1
+//@     invariant [built] old(tlen()) < tlen()
+//@     invariant [no_second_build] forall k int :: old(tlen()) < k && k < tlen() ==> !evIs(k, "internal/cmd:buildRunner")
+//@     invariant [writer] forall k int :: old(tlen()) < k && k < tlen()
+//@        && (evIs(k, "github.com/fatih/color.(*Color).Fprint") || evIs(k, "github.com/fatih/color.(*Color).Fprintln")) ==>
+//@        evArg(k, io.Writer) == evArg(old(tlen()), runnerPayload).writer
